@@ -214,7 +214,10 @@ class OpenAPISchemaResolver(SchemaTypeResolver):
 
             current_filename = os.path.basename(current_file)
             expected_filename = f"{module_stem}.py"
-            is_self_import = current_filename == expected_filename
+            # ... and only inside the models package: endpoints/pets.py is not models/pets.py
+            is_self_import = (
+                current_filename == expected_filename and os.path.basename(os.path.dirname(current_file)) == "models"
+            )
 
         if is_self_import:
             # This is a self-import (importing from the same file), so skip the import
